@@ -24,7 +24,7 @@ CHECKS = {
          "trusted: harness/irinterp (soaked silent over hundreds of programs), the Go toolchain as ground truth; the executable subset excludes goroutines/channels/select/unsafe/floats."),
  "C03": ("exploration",
          "runtime crash/failure monitor: the real linter with all analyzers run as child processes over generated syntax-coverage packages and real corpora; oracle = exit status, stderr, compile/config problems",
-         "Generated syntax-coverage modules (every builtin in every result position over all pointer-like result types, all statement forms, generics, range-over-func, select, goto), slices of std, the repository and analyzer testdata (all of them in the thorough tier) are linted with -checks all plus quickfix analyzers through the real pipeline; precondition 'compiles' is established with go build; a failing unit is isolated to the package and, for generated code, shrunk to the functions. AST/IR kind coverage is measured by a monitor analyzer inside the run.",
+         "Generated syntax-coverage modules (every builtin in every result position over all pointer-like result types, all statement forms, generics, range-over-func, select, goto), a hostile-but-buildable workspace (a source file above the loader's size limit and its importer, cgo, assembly-backed declarations, embed, constraint-excluded files with broken bodies, BOM/CRLF sources, //line directives, test-only and external-test packages, deep nesting; every package but the oversized one must have been analysed), slices of std, the repository and analyzer testdata (all of them in the thorough tier) are linted with -checks all plus quickfix analyzers through the real pipeline; precondition 'compiles' is established with go build; a failing unit is isolated to the package and, for generated code, shrunk to the functions. AST/IR kind coverage is measured by a monitor analyzer inside the run.",
          "trusted: go build as the precondition oracle; default target version only."),
  "C04": ("exploration",
          "runtime metamorphic monitor: warm run on a shared cache vs. cold runs after every step of seeded edit/flag histories",
@@ -64,15 +64,15 @@ CHECKS = {
          "trusted: the in-process driver mirrors lint.go's merge; 'used' = the analyzer's Used verdict."),
  "C18": ("exploration",
          "Go race detector + dump comparison across schedules: race-instrumented child processes build fresh Programs serially/in parallel/twice/concurrently under seeded yields at builder hook points",
-         "Generated multi-package programs sharing generic instances, promoted-method wrappers, bound-method closures and thunks (plus std/repo slices) are built in several ways under GOMAXPROCS 1..16; WriteFunction dumps (modulo register numbering) must equal the serial build, shared functions must be unique and fully built, a second Build must change nothing, and GORACE logs must be empty.",
+         "Generated multi-package programs sharing generic instances, promoted-method wrappers, bound-method closures and thunks (plus std/repo slices) are built in several ways under GOMAXPROCS 1..16; WriteFunction dumps (modulo register numbering) must equal the serial build, shared functions must be unique and fully built, a second Build must change nothing, and GORACE logs must be empty. With and without InstantiateGenerics. In the per-package mode (slowest package first, staged starts, other goroutines calling MethodValue) everything reachable from what a Package.Build or MethodValue call has just returned, through the package's own and through shared functions, must already have a body at that moment.",
          "trusted: function identity = String()+Synthetic."),
  "C20": ("exploration",
          "runtime probe monitor: a probe analyzer inside the real runner reports effective versions and one problem per bound; the full grid of module go version x file build constraint x -go flag is run",
-         "Exhaustive grid (7 module versions x dependency-module version x 7 file tags x 11 -go values): every {min,max} x {language,stdlib} bounded problem at thresholds go1.17..go1.26 must be present iff the effective version printed by the same run lies inside the bound, and the effective versions must follow go directive / build constraint / -go.",
+         "Exhaustive grid (7 module versions x dependency-module version x 7 file tags x 11 -go values): every {min,max} x {language,stdlib} bounded problem at thresholds go1.17..go1.26 must be present iff the effective version printed by the same run lies inside the bound, and the effective versions must follow go directive / build constraint / -go. All -go values of one module pair run in one directory on one shared cache, in a seeded order, so that what one target version stored must not leak into a run with another.",
          "trusted: go/types rule lang = max(tag, go1.21) for tagged files."),
  "C02": ("exploration",
          "runtime invariant monitor at the quiescent point after Build: independent well-formedness/dominance/typing oracle (harness/irwf) walked over every built function",
-         "Every function body the real builder returns (generated goto-CFG packages under all 16 mode combinations; std, the repository and analyzer testdata under several modes; everything x 16 modes in the thorough tier) is walked by an oracle that shares no code with sanity.go and computes its own dominators: block/terminator/arity rules, Preds/Succs and Operands/Referrers as exact inverses, phi placement/arity/typing, def-dominates-use (phi operands at the end of the predecessor), and the documented typing rules of ~40 instruction kinds. Held on the functions observed.",
+         "Every function body the real builder returns (generated goto-CFG packages under all 16 mode combinations; std, the repository and analyzer testdata under several modes; everything x 16 modes in the thorough tier) is walked by an oracle that shares no code with sanity.go and computes its own dominators: block/terminator/arity rules, Preds/Succs and Operands/Referrers as exact inverses, phi placement/arity/typing, def-dominates-use (phi operands at the end of the predecessor), and the documented typing rules of ~40 instruction kinds. A panic of the builder on a type-correct package is a violation too (packages are built from the monitor's goroutine so that it can be observed). Held on the functions observed.",
          "trusted: harness/irwf; typing rules are skipped for instructions mentioning type parameters; the only cross-root use allowed is the Recover block loading entry-block result allocs."),
  "C09": ("exploration",
          "runtime differential monitor: real pattern matcher vs. functional reference matcher on generated (pattern, syntax tree) cases + recall-equality oracle",
